@@ -1,0 +1,156 @@
+//go:build verif
+
+// Machine-checked contracts for this package (comment-only file; it is compiled
+// only with the build tag `verif` and contains no executable code). The
+// contracts are read by /verif/engine (govc), which generates verification
+// conditions from the go/ssa form of the real function bodies and discharges
+// them with z3 / cvc5. Syntax: see /verif/DESIGN.md section 2.2.
+package bitcode
+
+// Writer representation invariant: fewer than 32 pending bits, pending bits are
+// the only non-zero bits of the accumulator, flushed data is whole 32-bit words.
+//
+//@ pred bcinv(w) := w != nil && w.bufBits < 32 && len(w.data) % 4 == 0 && (w.buf >> w.bufBits) == 0
+//@ pred bitpos(w) := 8*len(w.data) + int(w.bufBits)
+//@ pred wfab(w) := 1 <= w.abbrevWidth && w.abbrevWidth <= 32
+//
+// The pending word as the reader will see it: bit i of the stream at position
+// 8*len(data)+i is bit i of buf.
+//
+//@ func (*Writer).WriteBits
+//@   mode bv
+//@   tags C18 C10
+//@   requires [inv] bcinv(w)
+//@   requires [width] 1 <= width && width <= 32
+//@   requires [fits] width == 32 || (data >> width) == 0
+//@   ensures [inv] bcinv(w)
+//@   ensures [pos] bitpos(w) == old(bitpos(w)) + int(width)
+//@   ensures [ab] w.abbrevWidth == old(w.abbrevWidth)
+//@   ensures [grow] len(w.data) >= old(len(w.data)) && len(w.data) <= old(len(w.data)) + 4
+//@   ensures [pending-noflush] old(w.bufBits) + width < 32 ==> len(w.data) == old(len(w.data)) && w.buf == old(w.buf) | (uint64(data) << old(w.bufBits))
+//@   ensures [pending-flush] old(w.bufBits) + width >= 32 ==> len(w.data) == old(len(w.data)) + 4 && w.buf == (old(w.buf) | (uint64(data) << old(w.bufBits))) >> 32
+//@   ensures [flushed-word] old(w.bufBits) + width >= 32 ==> uint32(w.data[old(len(w.data))]) | uint32(w.data[old(len(w.data))+1])<<8 | uint32(w.data[old(len(w.data))+2])<<16 | uint32(w.data[old(len(w.data))+3])<<24 == uint32(old(w.buf) | (uint64(data) << old(w.bufBits)))
+//@   ensures [prefix] forall i int :: 0 <= i && i < old(len(w.data)) ==> w.data[i] == old(w.data[i])
+//@   ensures [blocks] w.blocks == old(w.blocks)
+//@   assigns w.data, w.buf, w.bufBits, HA_uint8
+//@   nopanic
+//
+//@ func (*Writer).Align32
+//@   mode bv
+//@   tags C18 C10
+//@   requires [inv] bcinv(w)
+//@   ensures [inv] bcinv(w)
+//@   ensures [aligned] w.bufBits == 0 && w.buf == 0
+//@   ensures [pos] bitpos(w) == (old(bitpos(w)) + 31) / 32 * 32
+//@   ensures [ab] w.abbrevWidth == old(w.abbrevWidth)
+//@   ensures [grow] len(w.data) >= old(len(w.data)) && len(w.data) <= old(len(w.data)) + 4
+//@   ensures [pad-zero] old(w.bufBits) > 0 ==> uint32(w.data[old(len(w.data))]) | uint32(w.data[old(len(w.data))+1])<<8 | uint32(w.data[old(len(w.data))+2])<<16 | uint32(w.data[old(len(w.data))+3])<<24 == uint32(old(w.buf))
+//@   ensures [prefix] forall i int :: 0 <= i && i < old(len(w.data)) ==> w.data[i] == old(w.data[i])
+//@   ensures [blocks] w.blocks == old(w.blocks)
+//@   assigns w.data, w.buf, w.bufBits, HA_uint8
+//@   nopanic
+//
+// WriteVBR: the loop is specified in step form. Every iteration emits one chunk
+// that holds the low width-1 bits of the remaining value with the continuation
+// bit set, and shifts the remaining value right by exactly width-1; the final
+// chunk is the remaining value itself (continuation bit clear because it is
+// below the tag). Together these say vbr_decode(emitted) == value.
+//
+//@ func (*Writer).WriteVBR
+//@   mode bv
+//@   tags C18 C10
+//@   requires [inv] bcinv(w)
+//@   requires [width] 2 <= width && width <= 32
+//@   ensures [inv] bcinv(w)
+//@   ensures [pos] bitpos(w) >= old(bitpos(w)) + int(width)
+//@   ensures [one-chunk] value < (uint64(1) << (width-1)) ==> bitpos(w) == old(bitpos(w)) + int(width)
+//@   ensures [ab] w.abbrevWidth == old(w.abbrevWidth)
+//@   ensures [grow] len(w.data) >= old(len(w.data))
+//@   ensures [blocks] w.blocks == old(w.blocks)
+//@   assigns w.data, w.buf, w.bufBits, HA_uint8
+//@   nopanic
+//@   terminates
+//@   at (*Writer).WriteBits assert [chunk-width] arg2 == width
+//@   at (*Writer).WriteBits assert [chunk-content] (arg1 >> (width-1)) == 0 ==> uint64(arg1) == value && value < (uint64(1) << (width-1))
+//@   at (*Writer).WriteBits assert [chunk-more] (arg1 >> (width-1)) != 0 ==> arg1 == (uint32(prev(value)) & ((uint32(1) << (width-1)) - 1)) | (uint32(1) << (width-1)) && prev(value) >= (uint64(1) << (width-1))
+//@   loop 1 invariant [inv] bcinv(w)
+//@   loop 1 invariant [pos] bitpos(w) >= old(bitpos(w))
+//@   loop 1 invariant [first] bitpos(w) == old(bitpos(w)) ==> value == old(value)
+//@   loop 1 invariant [ran] bitpos(w) == old(bitpos(w)) || old(value) >= (uint64(1) << (width-1))
+//@   loop 1 invariant [ab] w.abbrevWidth == old(w.abbrevWidth)
+//@   loop 1 invariant [grow] len(w.data) >= old(len(w.data))
+//@   loop 1 invariant [blocks] w.blocks == old(w.blocks)
+//@   loop 1 step [shift] value == prev(value) >> (width-1)
+//@   loop 1 step [advance] bitpos(w) == prev(bitpos(w)) + int(width)
+//@   loop 1 decreases value
+//
+//@ func (*Writer).emitAbbrevID
+//@   mode bv
+//@   tags C18 C10
+//@   requires [inv] bcinv(w) && wfab(w)
+//@   requires [fits] w.abbrevWidth == 32 || (id >> w.abbrevWidth) == 0
+//@   ensures [inv] bcinv(w)
+//@   ensures [pos] bitpos(w) == old(bitpos(w)) + int(w.abbrevWidth)
+//@   ensures [ab] w.abbrevWidth == old(w.abbrevWidth)
+//@   ensures [grow] len(w.data) >= old(len(w.data))
+//@   ensures [blocks] w.blocks == old(w.blocks)
+//@   assigns w.data, w.buf, w.bufBits, HA_uint8
+//@   nopanic
+//
+// Zig-zag: the decoder (LLVM BitstreamReader) computes v = r>>1, negated when r&1.
+//
+//@ func EncodeSignedVBR
+//@   mode bv
+//@   tags C18 C10
+//@   requires [not-min] value != -9223372036854775808
+//@   ensures [nonneg] value >= 0 ==> (result & 1) == 0 && int64(result >> 1) == value
+//@   ensures [neg] value < 0 ==> (result & 1) == 1 && -int64(result >> 1) == value
+//@   pure
+//@   nopanic
+//
+//@ func EncodeChar6
+//@   mode bv
+//@   tags C18 C10
+//@   requires [char6] (ch >= 'a' && ch <= 'z') || (ch >= 'A' && ch <= 'Z') || (ch >= '0' && ch <= '9') || ch == '.' || ch == '_'
+//@   ensures [range] result < 64
+//@   ensures [lower] ch >= 'a' && ch <= 'z' ==> result == uint32(ch) - 97
+//@   ensures [upper] ch >= 'A' && ch <= 'Z' ==> result == uint32(ch) - 65 + 26
+//@   ensures [digit] ch >= '0' && ch <= '9' ==> result == uint32(ch) - 48 + 52
+//@   ensures [dot] ch == '.' ==> result == 62
+//@   ensures [underscore] ch == '_' ==> result == 63
+//@   pure
+//@   nopanic
+//
+//@ func isChar6
+//@   mode bv
+//@   tags C18
+//@   ensures [def] result <==> ((ch >= 'a' && ch <= 'z') || (ch >= 'A' && ch <= 'Z') || (ch >= '0' && ch <= '9') || ch == '.' || ch == '_')
+//@   pure
+//@   nopanic
+//
+//@ func (*Writer).EnterBlock
+//@   mode bv
+//@   tags C18 C10
+//@   requires [inv] bcinv(w) && wfab(w) && w.abbrevWidth >= 2
+//@   requires [abbrev] 1 <= abbrevLen && abbrevLen <= 32
+//@   ensures [inv] bcinv(w)
+//@   ensures [aligned] bitpos(w) % 32 == 0 && w.bufBits == 0
+//@   ensures [ab] w.abbrevWidth == abbrevLen
+//@   ensures [push] len(w.blocks) == old(len(w.blocks)) + 1
+//@   ensures [size-slot] w.blocks[len(w.blocks)-1].sizeOffset == len(w.data) - 4 && w.blocks[len(w.blocks)-1].sizeOffset % 4 == 0 && w.blocks[len(w.blocks)-1].sizeOffset >= 0
+//@   ensures [saved-ab] w.blocks[len(w.blocks)-1].abbrevWidth == old(w.abbrevWidth)
+//@   ensures [stack-kept] forall i int :: 0 <= i && i < old(len(w.blocks)) ==> w.blocks[i] == old(w.blocks[i])
+//@   nopanic
+//
+//@ func (*Writer).ExitBlock
+//@   mode bv
+//@   tags C18 C10
+//@   requires [inv] bcinv(w) && wfab(w)
+//@   requires [stack] 0 < len(w.blocks)
+//@   requires [slot] 0 <= w.blocks[len(w.blocks)-1].sizeOffset && w.blocks[len(w.blocks)-1].sizeOffset <= len(w.data) - 4 && w.blocks[len(w.blocks)-1].sizeOffset % 4 == 0
+//@   ensures [inv] bcinv(w)
+//@   ensures [aligned] w.bufBits == 0
+//@   ensures [pop] len(w.blocks) == old(len(w.blocks)) - 1
+//@   ensures [ab] w.abbrevWidth == old(w.blocks[len(w.blocks)-1].abbrevWidth)
+//@   ensures [size-word] uint32(w.data[old(w.blocks[len(w.blocks)-1].sizeOffset)]) | uint32(w.data[old(w.blocks[len(w.blocks)-1].sizeOffset)+1])<<8 | uint32(w.data[old(w.blocks[len(w.blocks)-1].sizeOffset)+2])<<16 | uint32(w.data[old(w.blocks[len(w.blocks)-1].sizeOffset)+3])<<24 == uint32((len(w.data) - old(w.blocks[len(w.blocks)-1].sizeOffset) - 4) / 4)
+//@   nopanic
